@@ -74,6 +74,22 @@ fn binary(p: &Params) {
         let want = if probs[i] >= 0.5 { pos } else { neg };
         check_bool("binary.predicted class is the one probability and threshold imply", pred[i].resolve(n_labels) == want);
     }
+    {
+        let d = x.ncols();
+        let mut ext = Array2::<f64>::zeros((n + 4, d));
+        ext.slice_mut(ndarray::s![..n, ..]).assign(&x);
+        for j in 0..d {
+            ext[(n, j)] = x[(0, j)] * 1e3;
+            ext[(n + 1, j)] = x[(n - 1, j)] * -1e6;
+            ext[(n + 2, j)] = 1e6;
+        }
+        let pe = m.predict_probabilities(&ext);
+        check_bool("binary.one probability per input row", pe.len() == n + 4);
+        if pe.len() == n + 4 {
+            check_bool("binary.probabilities stay in [0,1] in a batch with extreme rows", pe.iter().all(|v| *v >= 0.0 && *v <= 1.0));
+            check_bool("binary.a row's probability does not depend on the other rows of the batch", (0..n).all(|i| (pe[i] - probs[i]).abs() <= 1e-12));
+        }
+    }
     // the decision threshold is configurable: the predicted class must follow it
     for &t in &[0.25f64, 0.75, 0.1, 0.9] {
         let mt = m.clone().set_threshold(t);
@@ -155,6 +171,29 @@ fn multinomial(p: &Params) {
         let got = pred[i].resolve(n_labels);
         let gi = classes.iter().position(|&c| c == got);
         check_bool("multinomial.predicted class is one of maximal probability", gi.map(|g| probs[(i, g)] >= probs[(i, best)] - 1e-12).unwrap_or(false));
+    }
+    // the same rows inside a batch that also holds extreme rows: valid probabilities everywhere, and the ordinary
+    // rows keep the probabilities they have on their own
+    {
+        let d = x.ncols();
+        let mut ext = Array2::<f64>::zeros((n + 4, d));
+        ext.slice_mut(ndarray::s![..n, ..]).assign(&x);
+        for j in 0..d {
+            ext[(n, j)] = x[(0, j)] * 1e3;
+            ext[(n + 1, j)] = x[(n - 1, j)] * -1e6;
+            ext[(n + 2, j)] = 1e6;
+        }
+        let pe = m.predict_probabilities(&ext);
+        check_bool("multinomial.one probability row per input row", pe.dim() == (n + 4, k));
+        if pe.dim() == (n + 4, k) {
+            for i in 0..n + 4 {
+                let s: f64 = (0..k).map(|c| pe[(i, c)]).sum();
+                check_bool("multinomial.probabilities stay in [0,1] and sum to one in a batch with extreme rows", (0..k).all(|c| pe[(i, c)] >= 0.0 && pe[(i, c)] <= 1.0) && (s - 1.0).abs() <= 1e-9);
+            }
+            for i in 0..n {
+                check_bool("multinomial.a row's probabilities do not depend on the other rows of the batch", (0..k).all(|c| (pe[(i, c)] - probs[(i, c)]).abs() <= 1e-12));
+            }
+        }
     }
     // stationarity of  -sum_i log softmax(x_i W + b)[y_i] + alpha/2 |W|^2
     let (w, b) = (m.params().clone(), m.intercept().clone());
